@@ -415,8 +415,10 @@ package ion
 
 //@ func (*bitstream).ReadTimestamp
 //@ split returns
-//@ unroll loop0 6
 //@ requires bsLocal(b) && bsOn(b, bitcodeTimestamp)
+//@ invariant loop0 [length uint64, i int, ts []int] bsStream(b) && bsPos(b) && 0 <= i && i <= 6 && len(ts) == 6 && length <= old(b.len) && bsRoom(b, length)
+//@ invariant loop0 [length uint64] b.pos+length == old(b.pos)+old(b.len) && bsS(b).cur+int(length) == old(bsS(b).cur)+int(old(b.len))
+//@ invariant loop0 b.state == old(b.state) && b.code == old(b.code) && b.null == old(b.null) && b.len == old(b.len) && len(b.stack.arr) == old(len(b.stack.arr))
 //@ modifies b.pos, b.state, b.code, b.null, b.len, vcStreamOf(b.in).cur
 //@ ensures[C06] bsStream(b)
 //@ ensures[C03,C06,C08,C15] err == nil ==> bsLocal(b) && bsConsumed(b, old(b.pos), old(bsS(b).cur), old(b.len))
